@@ -392,7 +392,7 @@ func (fd *Client) Query(ctx context.Context, input *dynamodb.QueryInput, opt ...
 	output := &dynamodb.QueryOutput{
 		Items:            mapTypesToDynamoSliceMapItem(items),
 		Count:            int32(count),
-		LastEvaluatedKey: mapTypesToDynamoMapItem(lastKey),
+		LastEvaluatedKey: mapLastEvaluatedKey(lastKey),
 	}
 
 	return output, nil
@@ -438,7 +438,7 @@ func (fd *Client) Scan(ctx context.Context, input *dynamodb.ScanInput, opt ...fu
 	output := &dynamodb.ScanOutput{
 		Items:            mapTypesToDynamoSliceMapItem(items),
 		Count:            int32(count),
-		LastEvaluatedKey: mapTypesToDynamoMapItem(lastKey),
+		LastEvaluatedKey: mapLastEvaluatedKey(lastKey),
 	}
 
 	return output, nil
